@@ -32,6 +32,7 @@ var (
 )
 
 func envelopeFuncs(c *an.Check) (build, unlock *ssa.Function) {
+	pbCodecSanity(c, func(rel string) bool { return rel == "envelope" })
 	build = c.P.Func("envelope", "", "BuildEnvelope")
 	unlock = c.P.Func("envelope", "", "UnlockEnvelope")
 	if build == nil || unlock == nil {
@@ -347,6 +348,7 @@ func c17(c *an.Check) {
 	if unlockFn != nil {
 		// an accepted configuration opens only if the shares collected from one grant keep their own values
 		shareScalarFreshness(c, unlockFn)
+		decryptInputUntouched(c)
 	}
 	share := an.Calls(build, cSSShare)
 	ssnew := an.Calls(build, cSSNew)
